@@ -47,6 +47,14 @@ def cases(rng, tier):
         base = sink.sink(rng, n_consts=2)["wgsl"] if i % 2 else W.random_program(rng).render()
         src = decorate(rng, base)
         out.append({"wgsl": src, "family": "embedded", "opts": {"rustfmt": i % 4 == 0}, "include": None})
+    big_pad = "\n".join("// padding line %d with some text to make the source long" % k for k in range(120))
+    base = W.random_program(rng).render()
+    out.append({"wgsl": (base + big_pad + "\n").replace("\n", "\r\n"), "family": "embedded_large_crlf", "opts": {"rustfmt": False}, "include": None})
+    out.append({"wgsl": (base + big_pad + "\n// tail without newline").replace("\n", "\r\n"), "family": "embedded_large_crlf", "opts": {"rustfmt": True}, "include": None})
+    uni = "".join(rng.choice(["é", "ß", "→", "名", "\U0001F600", "a", " "]) for _ in range(60))
+    big_uni = "\n".join("// %s %d" % (uni, k) for k in range(900))
+    out.append({"wgsl": base + big_uni + "\n", "family": "embedded_large_unicode", "opts": {"rustfmt": True}, "include": None})
+    out.append({"wgsl": base + big_uni + "\n", "family": "embedded_large_unicode", "opts": {"rustfmt": False}, "include": None})
     paths = ["shader.wgsl", "dir/sub dir/shader.wgsl", "a\"b.wgsl", "back\\slash.wgsl", "{brace}.wgsl", "unié\U0001F600.wgsl",
              "tab\there.wgsl", "new\nline.wgsl", "nul\x00.wgsl", "nul\x007.wgsl", "quote'.wgsl", "../up/one.wgsl", "cr\rlf.wgsl",
              "‮rtl.wgsl", ""]
@@ -91,6 +99,11 @@ def verdict_expr(c, r, ir, real):
         extra = ("match %s with Ok a => agree_but_source a %s | _ => false end" % (real, r["twin_out"]))
     return ('[true; agree_res (fun a b => source_eqb (o_source a) (o_source b)) (gen %s %s %s %s) %s && %s; %s]'
             % (ir, coq_string(c["wgsl"]), inc, coq_options(c["opts"]), real, extra, "true" if b_holds(c, r) else "false"))
+
+
+def verdict_expr_noout(c, r, ir):
+    # the SOURCE item could not be recognised by the extractor: decide with the compiled observation alone
+    return '[true; false; %s]' % ("true" if b_holds(c, r) else "false")
 
 
 def distinct_key(c, r):
